@@ -1,3 +1,4 @@
+import Sparrow.Proofs.BakeKernelEquiv
 import Sparrow.Proofs.KernelEquiv
 import Sparrow.Proofs.CollectLemmas
 import Sparrow.Proofs.RealInst
@@ -77,3 +78,18 @@ theorem collectReceiverEnergy_eq (P B S : Nat) (E : Nat → Nat → Nat → ℝ)
   Sparrow.collectReceiverEnergy_eq P B S E s0 dist c dt s1 att i b t hi hb
 
 end Sparrow.Props.C11.Kernels
+
+namespace Sparrow.Props.C11.ReceiverIndex
+open Sparrow Sparrow.Generated.BakeKernels
+
+/-- `get_scattering_data_receiver_index` as translated: for every patch `i` the outgoing sample of
+    ITS wall nearest to the direction from its centre to the point `pt` (used for the
+    patch-to-patch slot in `bake_geometry` and for the slot towards a receiver). -/
+theorem getScatteringDataReceiverIndex_eq (P W D : Nat) (pc : Nat → Nat → ℝ) (pt : Nat → ℝ)
+    (receivers : Nat → Nat → Nat → ℝ) (wall : Nat → Nat) (s0 : Nat) (i : Nat) (hi : i < P) :
+    getScatteringDataReceiverIndex P 3 pc 3 pt W D 3 receivers s0 wall i =
+      nearest (fun k => ⟨receivers (wall i) k 0, receivers (wall i) k 1, receivers (wall i) k 2⟩) D
+        (Vec3.normalize (Vec3.sub ⟨pt 0, pt 1, pt 2⟩ ⟨pc i 0, pc i 1, pc i 2⟩)) :=
+  Sparrow.getScatteringDataReceiverIndex_eq P W D pc pt receivers wall s0 i hi
+
+end Sparrow.Props.C11.ReceiverIndex
